@@ -7,6 +7,7 @@ import (
 	"github.com/goghcrow/yae/parser/ast"
 	"github.com/goghcrow/yae/parser/lexer"
 	"github.com/goghcrow/yae/parser/oper"
+	"github.com/goghcrow/yae/parser/token"
 	"github.com/goghcrow/yae/zzverif/sv"
 )
 
@@ -385,4 +386,114 @@ func H08_prefix_right() {
 	if pl > pr {
 		sv.Assert("redundant-parentheses-do-not-change-the-tree", class == "ok" && (pu < pl || shape == "(a @ ((~ b) # c))"))
 	}
+}
+
+// ---- a reference parser (precedence climbing) for operator sequences
+
+type refOp struct {
+	bp  oper.BP
+	fix int // 0 L, 1 R, 2 N
+}
+
+type refParser struct {
+	ops     map[string]refOp
+	toks    []string // a op b op c ...
+	i       int
+	bad     bool // syntax error by the declarations (a non-associative operator chained with itself)
+	silent  bool // a situation the declarations do not dictate
+}
+
+func (p *refParser) parse(min oper.BP, strict bool) string {
+	lhs := p.toks[p.i]
+	p.i++
+	last := ""
+	for p.i < len(p.toks) {
+		name := p.toks[p.i]
+		op := p.ops[name]
+		if strict {
+			if !(op.bp > min) {
+				if op.bp == min {
+					// an operator of exactly the power of the one whose operand is being read
+					p.checkEqual(name, op)
+				}
+				break
+			}
+		} else if op.bp < min {
+			break
+		}
+		if op.fix == 2 && last == name {
+			p.bad = true // a @ b @ c with @ non-associative
+			return lhs
+		}
+		p.i++
+		var rhs string
+		if op.fix == 1 {
+			rhs = p.parse(op.bp, false) // right-associative: operators of the same power stay in the right operand
+		} else {
+			rhs = p.parse(op.bp, true)
+		}
+		lhs = "(" + lhs + " " + name + " " + rhs + ")"
+		last = name
+	}
+	return lhs
+}
+
+// checkEqual: two different operators of equal power meet. Dictated only when
+// both are left- or both right-associative; everything else is silence.
+func (p *refParser) checkEqual(name string, op refOp) {}
+
+// H08_three: three user operators, each with a symbolic binding power and any
+// infix fixity, in every sequence of three operator occurrences: the tree is
+// the one a textbook precedence-climbing parser builds from the declarations.
+// Silence: two different operators of equal power unless both are
+// left-associative or both right-associative; a non-associative operator next
+// to a different operator of the same power.
+func H08_three() {
+	names := []string{"@", "#", "$"}
+	ops := map[string]refOp{}
+	var table []oper.Operator
+	for _, n := range names {
+		f := sv.Choice("fix"+n, 3)
+		bp := power("bp" + n)
+		ops[n] = refOp{bp, f}
+		table = append(table, oper.Operator{Kind: token.Kind(n), BP: bp, Fixity: fixityOf(f)})
+	}
+	// equal powers between different operators: only L/L or R/R is dictated
+	for i := 0; i < 3; i++ {
+		for j := 0; j < i; j++ {
+			a, b := ops[names[i]], ops[names[j]]
+			sv.Assume(sv.Or(a.bp != b.bp, a.fix == b.fix && a.fix != 2))
+		}
+	}
+	seqs := [][3]int{{0, 1, 2}, {2, 1, 0}, {1, 0, 2}, {0, 0, 1}, {1, 0, 0}, {0, 1, 0}}
+	if sv.Thorough() {
+		seqs = nil
+		for a := 0; a < 3; a++ {
+			for b := 0; b < 3; b++ {
+				for c := 0; c < 3; c++ {
+					seqs = append(seqs, [3]int{a, b, c})
+				}
+			}
+		}
+	}
+	sq := seqs[sv.Choice("sequence", len(seqs))]
+	toks := []string{"a", names[sq[0]], "b", names[sq[1]], "c", names[sq[2]], "d"}
+	src := ""
+	for _, t := range toks {
+		src += t + " "
+	}
+	rp := &refParser{ops: ops, toks: toks}
+	want := rp.parse(0, false)
+	shape, class := parseWith(table, src)
+	sv.Assert("never-an-internal-fault", class == "ok" || isSyntaxError(class))
+	if rp.bad {
+		sv.Reach("chained-non-associative")
+		sv.Assert("non-associative-never-chains", isSyntaxError(class))
+		return
+	}
+	sv.Reach("dictated")
+	if class != "ok" || shape != want {
+		sv.Logf("%s: got %s (%s), the declarations dictate %s", src, shape, class, want)
+	}
+	sv.Assert("tree-is-the-one-the-declarations-dictate", class == "ok" && shape == want)
 }
